@@ -41,6 +41,19 @@ def run(ctx):
                                              invariants=["TableEqualsSoS", "Rotation", "AntiSym", "ZeroIffEqual", "DetSign", "SemanticEqualsOracle", "Emit"]),
                         workers=8)
             ctx.replay(r.tagged.get("CASE", []))
+    # 2a. N=2: every lattice point of one plane through the origin.  All triples are coplanar with the
+    # origin, many pairs are proportional: the deep rows of the symbolic perturbation decide.
+    pts2 = sorted((x, y, z) for x in range(-2, 3) for y in range(-2, 3) for z in range(-2, 3) if (x, y, z) != (0, 0, 0))
+    planes = [lambda q: q[0] == 0, lambda q: q[1] == 0, lambda q: q[2] == 0,
+              lambda q: q[0] == q[1], lambda q: q[1] == q[2], lambda q: q[0] == q[2],
+              lambda q: q[0] == -q[1], lambda q: q[1] == -q[2], lambda q: q[0] == -q[2]]
+    chosen = planes[:3] if ctx.quick() else planes
+    for pl in chosen:
+        sub = {i + 1 for i, q in enumerate(pts2) if pl(q)}
+        r = ctx.tlc("Gen_Sign", vlib.cfg(constants={"N": 2, "SubIdx": sub, "EmitAll": False},
+                                         invariants=["TableEqualsSoS", "Rotation", "AntiSym", "ZeroIffEqual", "DetSign", "Emit"]),
+                    workers=8)
+        ctx.replay(r.tagged.get("CASE", []))
     # 2b. two-scale world: the exact stage needs > 2000 bits
     for _ in range(1 if ctx.quick() else 4):
         sub = set(rnd.sample(range(1, 27), 9 if ctx.quick() else 14))
